@@ -34,6 +34,19 @@ Definition cpcca_fit_sg (n p1 p2 r k : nat) (X Y : mat) (a : svd_answer) (sg : v
 Definition cpcca_fit (n p1 p2 r k : nat) (X Y : mat) (a : svd_answer) : cp_out :=
   let '(U, s, Vt) := a in cpcca_fit_sg n p1 p2 r k X Y a (row_signs K k (mrows K k p2 Vt)).
 
+(* ---- CPCCA.squared_covariance_fraction, for one mode with component vectors u (p1 x 1), v (p2 x 1) and identity whitening:
+   the data minus its reconstruction by the mode's scores, the cross-covariance of the two residuals, its squared Frobenius norm,
+   one minus that over the total squared covariance, negative values set to zero *)
+Definition col (m i : nat) (A : mat) : mat := tab m 1 (fun a _ => get K A a i).
+Definition mode_scores (n p : nat) (X u : mat) : mat := mmul K n p 1 X u.                                   (* X u *)
+Definition mode_recon (n p : nat) (X u : mat) : mat := mmul K n 1 p (mode_scores n p X u) (mH K p 1 u).     (* xr.dot(scores_i, Q_i^H) *)
+Definition mode_resid (n p : nat) (X u : mat) : mat := msub K n p X (mode_recon n p X u).                   (* dX = X - Xrec *)
+Definition resid_sqcov (n p1 p2 : nat) (X Y u v : mat) : F :=                                               (* norm(dX^H dY / (n - 1)) ** 2 *)
+  frob2 K p1 p2 (cross_cov n p1 p2 (mode_resid n p1 X u) (mode_resid n p2 Y v)).
+Definition scf_src (n p1 p2 : nat) (X Y u v : mat) (tsc : F) : F := fsub K (f1 K) (fdiv K (resid_sqcov n p1 p2 X Y u v) tsc).
+Definition scf_modes (n p1 p2 k : nat) (X Y Q1 Q2 : mat) (tsc : F) : vec :=
+  vtab k (fun i => let x := scf_src n p1 p2 X Y (col p1 i Q1) (col p2 i Q2) tsc in if fleb K x (f0 K) then f0 K else x).
+
 (* correlation of two series (columns), with a common ddof for covariance and standard deviations:
    c = sum (x - mx)(conj (y - my)) ; corr = c / sqrt(vx * vy) — the divisors cancel when they agree *)
 Definition csum (n : nat) (x y : nat -> F) : F := sum K n (fun i => fmul K (x i) (fconj K (y i))).
